@@ -366,6 +366,11 @@ def main():
                 if not body_f:
                     discharged += 1
         else:
+            if r.get('hw_grid'):
+                g = r['hw_grid']
+                bounded_units.append({'harness': 'hardware edge grid over %d discharged harnesses' % len(g['per_harness']),
+                                      'bound': 'every combination of %s edge values per symbolic draw, executed on the compiled real code (%d runs); bounded, not counted as proved'
+                                               % (g['values_per_draw'], g['runs']), 'status': 'SUCCESS', 'cmd': g['cmd'], 'wall_s': g['wall_s']})
             for h in r['harnesses']:
                 if h.get('bounded'):
                     bounded_units.append({'harness': h['name'], 'bound': h['bounded'], 'status': h['status']})
